@@ -16,6 +16,7 @@ import PhyVerif.Driver.C05
 import PhyVerif.Driver.C18
 import PhyVerif.Driver.C10
 import PhyVerif.Driver.C14
+import PhyVerif.Driver.C13
 open Lean PhyVerif.Driver
 
 partial def dispatch (j : Json) : R Json := do
@@ -47,6 +48,7 @@ partial def dispatch (j : Json) : R Json := do
   | "C18" => runC18 op j
   | "C10" => runC10 op j
   | "C14" => runC14 op j
+  | "C13" => runC13 op j
   | _ => .error s!"unknown property {p}"
 
 def handle (line : String) : String :=
